@@ -393,6 +393,62 @@ def E1_lmpdat_writer_reader(repo, clause):
         ok = ok and upper_zero
         detail += "; upper triangle zero=%s; diagonal=%s" % (upper_zero, diag_names)
     obs.append(Ob("E1", clause, w, tilt_c if tilt_w else w.node, ok, detail, slot="tilt"))
+    # writer side of the triclinic decision: the `xy xz yz` line is written exactly when some tilt factor (lower off-diagonal entry) is non-zero.  The path
+    # condition of the write is evaluated over the 27 sign patterns of cell[1,0], cell[2,0], cell[2,1] (upper triangle zero - anything else is refused before),
+    # with cell_is_orthorhombic() standing for "all off-diagonal entries are zero".
+    tw_calls = [c for c, s_, a in writes if s_ is not None and "xy xz yz" in s_]
+    if len(tw_calls) == 1:
+        import itertools as _it
+        from .common import eval_small, Undecidable
+
+        class _Abs(ast.NodeTransformer):
+            def visit_Subscript(self, n):
+                if is_self_attr(n.value, "cell") and isinstance(n.slice, ast.Tuple) and len(n.slice.elts) == 2 and all(isinstance(const_value(x), int) for x in n.slice.elts):
+                    return ast.copy_location(ast.Name(id="c_%d_%d" % (const_value(n.slice.elts[0]), const_value(n.slice.elts[1])), ctx=ast.Load()), n)
+                return self.generic_visit(n)
+
+            def visit_Call(self, n):
+                if isinstance(n.func, ast.Attribute) and n.func.attr == "cell_is_orthorhombic" and not n.args:
+                    return ast.copy_location(ast.Name(id="ORTHO", ctx=ast.Load()), n)
+                return self.generic_visit(n)
+
+            def visit_Attribute(self, n):
+                if n.attr == "shape" and is_self_attr(n.value, "cell"):
+                    return ast.copy_location(ast.Tuple(elts=[ast.Constant(3), ast.Constant(3)], ctx=ast.Load()), n)
+                if is_self_attr(n, "cell"):
+                    return ast.copy_location(ast.Name(id="CELL", ctx=ast.Load()), n)   # the cell object itself (tested against None)
+                return self.generic_visit(n)
+        gsw = []
+        for t, pol, k in norm_guards(w, tw_calls[0]):
+            te = expand(w, t)
+            if any(is_self_attr(x, "cell") for x in ast.walk(te)) or "cell_is_orthorhombic" in ast.unparse(te):
+                import copy as _copy
+                gsw.append((_Abs().visit(_copy.deepcopy(te)), pol))
+        verdict_w, ex_w, und_w = None, None, None
+        try:
+            if not gsw:
+                raise Undecidable("the tilt line is written unconditionally")
+            wrong_w = []
+            for vals in _it.product((-2.5, 0.0, 1.5), repeat=3):
+                env_ = {"c_1_0": vals[0], "c_2_0": vals[1], "c_2_1": vals[2], "c_0_1": 0.0, "c_0_2": 0.0, "c_1_2": 0.0, "c_0_0": 10.0, "c_1_1": 11.0, "c_2_2": 12.0,
+                        "ORTHO": all(v == 0 for v in vals), "CELL": ("cell",)}
+                taken = all(bool(eval_small(t, env_)) == pol for t, pol in gsw)
+                if taken != any(v != 0 for v in vals):
+                    wrong_w.append(dict(zip(("xy", "xz", "yz"), vals)))
+            verdict_w, ex_w = not wrong_w, (wrong_w[0] if wrong_w else None)
+            n_wrong = len(wrong_w)
+        except Undecidable as e_:
+            und_w = str(e_)
+        if verdict_w is None:
+            obs.append(Ob("E1", clause, w, tw_calls[0], False, "writer: the condition under which the tilt line is written is outside the table language (%s)" % und_w,
+                          slot="tilt-written-table", undecided=True))
+        else:
+            obs.append(Ob("E1", clause, w, tw_calls[0], verdict_w,
+                          "writer: over the 27 sign patterns of the tilt factors the `xy xz yz` line is written %s" % (
+                              "exactly when some factor is non-zero" if verdict_w else
+                              "WRONGLY for %d patterns, e.g. %s %s" % (n_wrong, ex_w, "gets NO tilt line: the file describes an orthorhombic box and the cell is read back without its tilt"
+                                                                      if any(v != 0 for v in ex_w.values()) else "gets a tilt line")),
+                          slot="tilt-written-table", positive="robust" if not verdict_w else False))
     # the triclinic decision: the tilted matrix is built exactly when ANY of the three tilt factors is non-zero, whatever their signs.  Decided by
     # evaluating the path condition of the statement that builds the tilted matrix over the sign domain {-, 0, +}^3 (27 combinations; the factors are
     # touched only through comparisons with constants, so three representatives per factor decide every test), with the box lengths positive.
